@@ -13,8 +13,11 @@ it exactly as BytecodeInterpreter.eval does (to_value on the way in,
                                              definition #def_index of DefineUse (None: bound outside the function)
   ('def', def_index, name, value)            definition #def_index bound `name` to `value`
   ('phi', phi_index, name, value, def_index) control reached the phi; `name` holds `value`, bound by #def_index
-  ('lists', stmt_node, {name: value}, {name: def_index})   after a statement: the list-valued variables in scope
-                                             (the list OBJECTS, for alias / equal-length facts) and who bound each name
+  ('lists', stmt_node, {name: (copy, [(depth, list object)])}, {name: def_index})
+                                             after a statement: the list-valued variables in scope, a copy of the
+                                             value and the list OBJECTS in it (for alias / equal-length facts), and
+                                             who bound each name
+  ('escaped', [list objects])                lists returned by a call (the callee may have created aliasing)
 
 plus the outcome ('ok', result) or ('exc', exception).
 Values are the interpreter's own (Float / Fraction / bool / list / tuple / Context).
@@ -31,11 +34,50 @@ from fpy2.interpret import get_default_interpreter
 from fpy2.interpret.value import from_value, to_value
 
 
+def snap(v, depth=0):
+    """A structural copy of a value (lists are mutable: later stores must not change what was recorded)."""
+    if depth > 6:
+        return v
+    if isinstance(v, list):
+        return [snap(x, depth + 1) for x in v]
+    if isinstance(v, tuple):
+        return tuple(snap(x, depth + 1) for x in v)
+    return v
+
+
+def list_objects(v, depth=0, out=None):
+    """(depth, object) for v and every list nested in it along list levels (identity structure, now)."""
+    if out is None:
+        out = []
+    if isinstance(v, list) and depth <= 3:
+        out.append((depth, v))
+        for x in v[:6]:
+            list_objects(x, depth + 1, out)
+    return out
+
+
+def all_lists(v, out=None, depth=0):
+    """Every list object reachable from v (through lists and tuples)."""
+    if out is None:
+        out = []
+    if depth > 6:
+        return out
+    if isinstance(v, list):
+        out.append(v)
+        for x in v:
+            all_lists(x, out, depth + 1)
+    elif isinstance(v, tuple):
+        for x in v:
+            all_lists(x, out, depth + 1)
+    return out
+
+
 class Recorder:
     def __init__(self):
         self.events = []
         self.defs = {}          # name -> index of the definition that bound it last (runtime)
         self.keys = []          # key -> node
+        self.call_args = set()  # ids of the expression nodes that are arguments of a call
 
     def key(self, node):
         self.keys.append(node)
@@ -43,7 +85,11 @@ class Recorder:
 
     # runtime entry points (called from the compiled code)
     def val(self, k, v, ctx):
-        self.events.append(('val', self.keys[k], v, ctx))
+        node = self.keys[k]
+        self.events.append(('val', node, snap(v), ctx))
+        if type(node).__name__ == 'Call' or id(node) in self.call_args:
+            # lists that went through a call: aliasing created by the callee is not the analysed function's
+            self.events.append(('escaped', all_lists(v)))
         return v
 
     def use(self, k, name, v):
@@ -55,17 +101,18 @@ class Recorder:
 
     def bind(self, idx, name, v):
         self.defs[name] = idx
-        self.events.append(('def', idx, name, v))
+        self.events.append(('def', idx, name, snap(v)))
 
     def rebind(self, idx, name):
         self.defs[name] = idx
 
     def phi(self, idx, name, v):
-        self.events.append(('phi', idx, name, v, self.defs.get(name)))
+        self.events.append(('phi', idx, name, snap(v), self.defs.get(name)))
         return True
 
     def lists(self, k, env):
-        self.events.append(('lists', self.keys[k], env, dict(self.defs)))
+        # the identity structure is taken NOW (the objects are kept alive, so ids stay unique)
+        self.events.append(('lists', self.keys[k], {n: (snap(v), list_objects(v)) for n, v in env.items()}, dict(self.defs)))
 
 
 def _c(value):
@@ -125,6 +172,8 @@ class TracingCompiler(BytecodeCompiler):
         py = super()._visit_expr(e, ctx)
         attrs = self._location_to_attributes(e.loc)
         k = self.rec.key(e)
+        if isinstance(e, A.Call):
+            self.rec.call_args.update(id(a) for a in e.args)
         if isinstance(e, A.Var):
             d = self.du.use_to_def.get(e)
             # a comprehension target lives in the comprehension's own Python scope: not tracked
